@@ -70,6 +70,15 @@ def dispersion_rules(ctx):
             for ne, (oe, se, fe) in cands:
                 if ne != nk and T.equivalent(oe, omega_ref(T.to_term(ok_), d, g) - w) == T.Verdict.EQUAL:
                     iterate = (nk, T.to_term(ok_), sk, fk)
+        rotated = False
+        if iterate is None:
+            for nk, (ok_, sk, fk) in cands:
+                e_k = omega_ref(sk, d, g) - w
+                dk = op("where", CMP("gt", sk * d, sp.Integer(5)), sp.Rational(1, 2) * w / sk,
+                        (sp.Rational(1, 2) + sk * d / sp.sinh(2 * sk * d)) * w / sk)
+                if T.equivalent(fk, sk - e_k / dk) == T.Verdict.EQUAL:
+                    iterate = (nk, T.to_term(ok_), sk, fk)
+                    rotated = True
         if iterate is None:
             names = {n: T.show(v[0], 120) for n, v in L.carried.items()}
             ctx.unsure("R07.2", C + "[first guess]", "no loop-carried iterate with a companion residual omega(k) - w was identified",
@@ -97,7 +106,34 @@ def dispersion_rules(ctx):
                     continue
                 if T.equivalent(orig, omega_ref(k0, d, g) - w) == T.Verdict.EQUAL:
                     residual = (name, orig, sym, fin)
-            if residual is None:
+            if residual is None and rotated:
+                # rotated loop: each pass evaluates the residual of the current iterate, tests it, and only then steps
+                e_here = omega_ref(kc, d, g) - w
+                ctx.ok("R07.2", C + "[initial residual]", "residual = omega(k) - w evaluated from the current iterate in every pass", L.loc,
+                       derived=e_here)
+                ctx.ok("R07.2", C + "[update]", "k <- k - residual / (n(kd) * w / k), n switching at kd > 5", L.loc, derived=iterate[3])
+                want_here = op("all", CMP("lt", sp.Abs(e_here) / w, tol), T.NONE_T)
+                conj_of = lambda c: list(c.args) if fname(c) == "and_" else [c]  # noqa: E731
+                conv = [b for b in L.break_conds if any(T.equivalent(x, want_here) == T.Verdict.EQUAL for x in conj_of(b))]
+                other = [b for b in L.break_conds if b not in conv]
+                cnts = {v[1]: v for nm, v in L.carried.items() if v[1] is not None and nm != iterate[0]
+                        and T.to_term(v[0]) == 0 and sp.expand(T.to_term(v[2]) - v[1] - 1) == 0}
+                wc = L.iter.args[0] if fname(L.iter) == "while" else None
+                budget = [b for b in other if fname(b) == "ge" and b.args[0] in cnts and b.args[1] == maxiter]
+                if wc is not None and wc != T.TRUE_T:
+                    budget += [x for x in conj_of(wc) if fname(x) == "lt" and x.args[0] in cnts and x.args[1] == maxiter]
+                    extra_w = [x for x in conj_of(wc) if x not in budget]
+                else:
+                    extra_w = []
+                if fname(L.iter) == "range":
+                    budget += [L.iter] if L.iter in (op("range", sp.Integer(0), maxiter), op("range", maxiter)) else []
+                ctx.expect(True if (conv and len(other) == len([b for b in budget if b in other]) and not extra_w) else None, "R07.2", C + "[exit]",
+                           "the iteration is left only when every element satisfies |residual|/w < tolerance for the iterate that is "
+                           "returned, or when the iteration budget is used up", L.loc, derived=sp.Tuple(*L.break_conds))
+                ctx.ok("R07.2", C + "[residual update]", "the residual tested is that of the iterate returned", L.loc, derived=e_here)
+                ctx.expect(True if budget else None, "R07.2", C + "[iteration bound]",
+                           "loop bounded by maximum_number_of_iterations (counter from 0, +1 per pass)", L.loc, derived=sp.Tuple(*budget))
+            elif residual is None:
                 ctx.bad("R07.2", C + "[initial residual]", "no carried residual equals omega(k_guess) - w", L.loc,
                         required=omega_ref(k0, d, g) - w)
             else:
@@ -127,13 +163,28 @@ def dispersion_rules(ctx):
                 ctx.equiv("R07.2", C + "[residual update]", residual[3], omega_ref(iterate[3], d, g) - w, L.loc,
                           "residual re-evaluated at the new iterate", interp=it2)
                 want_exit = op("all", CMP("lt", sp.Abs(residual[3]) / w, tol), T.NONE_T)
-                if len(L.break_conds) != 1:
-                    ctx.bad("R07.2", C + "[exit]", f"expected exactly one early exit, found {len(L.break_conds)}", L.loc)
+                if fname(L.iter) == "while":
+                    # while not <flag> and <counter> < budget:  flag := all(|res|/w < tol) at the end of the pass, counter += 1
+                    cond = L.iter.args[0]
+                    conj = list(cond.args) if fname(cond) == "and_" else [cond]
+                    flags = [(nm, v) for nm, v in L.carried.items() if v[1] is not None and T.NOT(v[1]) in conj]
+                    cnts = [(nm, v) for nm, v in L.carried.items() if v[1] is not None and CMP("lt", v[1], maxiter) in conj]
+                    strip_bool = lambda t: t.args[0] if fname(t) == "bool" and len(t.args) == 1 else t  # noqa: E731
+                    okx = len(flags) == 1 and T.to_term(flags[0][1][0]) == T.FALSE_T and not L.break_conds \
+                        and T.equivalent(strip_bool(T.to_term(flags[0][1][2])), want_exit) == T.Verdict.EQUAL
+                    ctx.expect(okx, "R07.2", C + "[exit]", "the iteration stops only when every element satisfies |residual|/w < tolerance "
+                               "(flag tested by the loop condition)", L.loc, derived=cond)
+                    okb = len(cnts) == 1 and T.to_term(cnts[0][1][0]) == 0 and sp.expand(T.to_term(cnts[0][1][2]) - cnts[0][1][1] - 1) == 0 \
+                        and len(conj) == 2
+                    ctx.expect(okb, "R07.2", C + "[iteration bound]", "loop bounded by maximum_number_of_iterations (counter from 0, +1 per pass)",
+                               L.loc, derived=cond)
+                elif len(L.break_conds) != 1:
+                    ctx.unsure("R07.2", C + "[exit]", f"expected exactly one early exit, found {len(L.break_conds)}", L.loc)
                 else:
                     ctx.equiv("R07.2", C + "[exit]", L.break_conds[0], want_exit, L.loc,
                               "early exit only when every element satisfies |residual|/w < tolerance", interp=it2)
-                ctx.expect(L.iter == op("range", sp.Integer(0), maxiter) or L.iter == op("range", maxiter), "R07.2",
-                           C + "[iteration bound]", "loop bounded by maximum_number_of_iterations", L.loc, derived=L.iter)
+                    ctx.expect(L.iter == op("range", sp.Integer(0), maxiter) or L.iter == op("range", maxiter), "R07.2",
+                               C + "[iteration bound]", "loop bounded by maximum_number_of_iterations", L.loc, derived=L.iter)
         # the returned value is the iterate
         r = it2.call_function(f, [w, d, g, maxiter, tol], {}, None)
         rt = T.to_term(r)
@@ -149,6 +200,8 @@ def dispersion_rules(ctx):
         okres = iterate is not None and bool(leaves)
         for lf in leaves:
             if fname(lf) == "loopfix" and iterate is not None and lf.args[0] == iterate[1]:
+                continue
+            if fname(lf) == "whilefix" and iterate is not None and lf.args[3] == iterate[2]:
                 continue
             # value of the iterate on the path that leaves the loop early
             states = [x for x in T.find_ops(lf, "loopstate") if iterate is not None and x.args[0] == iterate[1]
